@@ -746,6 +746,41 @@ def caseFirst (pats : List (List PatternChar)) (subject : List Char) : Option Na
       | .error _ => go (i + 1) r
   go 0 pats
 
+/-- `case.rs matches`: does any `|`-alternative of one case item compile and match?  A pattern that
+    does not compile is skipped (`continue`), the remaining alternatives are still tried. -/
+def itemMatches (subject : List Char) : List (List PatternChar) → Bool
+  | [] => false
+  | p :: r =>
+    match Pattern.parse p caseConfig with
+    | .ok pat => if pat.isMatch subject then true else itemMatches subject r
+    | .error _ => itemMatches subject r
+
+/-- the item whose body `case` runs first: the first item one of whose alternatives compiles and matches -/
+def caseSelect (items : List (List (List PatternChar))) (subject : List Char) : Option Nat :=
+  let rec go : Nat → List (List (List PatternChar)) → Option Nat
+    | _, [] => none
+    | i, alts :: r => if itemMatches subject alts then some i else go (i + 1) r
+  go 0 items
+
+/-- `CaseContinuation`: `;;` / `;&` / `;;&` -/
+inductive CaseCont where
+  | brk | fallThrough | cont
+  deriving DecidableEq, Repr
+
+/-- `case.rs execute`: the indices of the items whose bodies run, in order (`falling` = `falling_through`) -/
+def caseExecGo (subject : List Char) : Bool → Nat → List (List (List PatternChar) × CaseCont) → List Nat
+  | _, _, [] => []
+  | falling, i, (alts, c) :: rest =>
+    if falling || itemMatches subject alts then
+      i :: (match c with
+        | .brk => []
+        | .fallThrough => caseExecGo subject true (i + 1) rest
+        | .cont => caseExecGo subject false (i + 1) rest)
+    else caseExecGo subject false (i + 1) rest
+
+def caseExec (items : List (List (List PatternChar) × CaseCont)) (subject : List Char) : List Nat :=
+  caseExecGo subject false 0 items
+
 /-- `AttrChar` reduced to what `attr_fnmatch.rs` reads -/
 structure AttrChar where
   value : Char
